@@ -72,14 +72,12 @@ func init() {
 			nb := 1 + r.Intn(2)
 			for b := 0; b < nb; b++ {
 				op := Op{ID: fmt.Sprintf("c%d.%d", c, b), Kind: KBulk, Ledger: "l1"}
-				switch r.Intn(4) {
-				case 0:
-					op.Atomic = true
-				case 1:
-					op.ContinueOnFailure = true
-				case 2:
-					op.Parallel = true
-					op.ContinueOnFailure = r.Bool()
+				// every combination of the three options (atomic+parallel is refused as a whole)
+				op.Atomic = r.Chance(0.35)
+				op.ContinueOnFailure = r.Chance(0.4)
+				op.Parallel = r.Chance(0.3)
+				if op.Atomic && op.Parallel && r.Chance(0.8) {
+					op.Parallel = false
 				}
 				if r.Chance(0.3) {
 					op.ContentType = "json-stream"
@@ -139,6 +137,15 @@ func checkBulk(r *runner, views map[string]*LedgerView) []Violation {
 			if has[op.Elements[i].sig()] > 0 {
 				applied++
 			}
+		}
+		anyFail := false
+		for _, e := range or.Out.Bulk {
+			if !e.OK {
+				anyFail = true
+			}
+		}
+		if op.Atomic && anyFail && applied != 0 && !faulted {
+			vs = append(vs, Violation{prop, "atomic-bulk-all-or-nothing", fmt.Sprintf("%s: an element failed but %d of %d elements are applied", op.ID, applied, n)})
 		}
 		if op.Atomic && applied != 0 && applied != n {
 			vs = append(vs, Violation{prop, "atomic-bulk-all-or-nothing", fmt.Sprintf("%s: %d of %d elements applied", op.ID, applied, n)})
